@@ -37,13 +37,14 @@ type target struct {
 	Maps      []string          // struct field names holding maps to watch
 	Objs      []string          // struct field names holding objects whose method calls are accesses (all treated as writes except Avail/Len)
 	LocksOnly []string          // base names in which only Lock/Unlock calls are rewritten (no yields)
+	SyncObjs  []string          // struct field names holding concurrency-safe objects (sync.Map): a scheduling point before each method call, no race oracle
 	Entry     map[string]string // function name ("Handle" or "(*T).Handle") -> tag expression
 }
 
 var targets = []target{
 	{Pkg: "./listener/agent", Files: []string{"connection.go", "agent.go", "connections.go"}},
 	{Pkg: "./pushers/file", Files: []string{"file.go"}},
-	{Pkg: "./services", Files: []string{"tftp.go"}, Maps: []string{"buffers"}, Entry: map[string]string{"(*tftpService).Handle": "conn.RemoteAddr().String()"}},
+	{Pkg: "./services", Files: []string{"tftp.go", "limiter.go"}, Maps: []string{"buffers"}, SyncObjs: []string{"m"}, Entry: map[string]string{"(*tftpService).Handle": "conn.RemoteAddr().String()"}},
 	{Pkg: "./listener/canary", Files: []string{"socket.go", "state.go", "canary_linux.go"}, LocksOnly: []string{"state.go", "canary_linux.go"}, Objs: []string{"rbuffer"}},
 }
 
@@ -55,6 +56,7 @@ type rewriter struct {
 	file      string
 	maps      map[string]bool
 	objs      map[string]bool
+	syncObjs  map[string]bool
 	locksOnly bool
 	n         int
 	funcs     map[string]string
@@ -115,6 +117,19 @@ type found struct {
 	objWrite bool
 }
 
+// isSyncMap: the expression has type sync.Map (so that a mutex field of the same name is not taken for one).
+func (r *rewriter) isSyncMap(e ast.Expr) bool {
+	t := r.info.TypeOf(e)
+	if t == nil {
+		return false
+	}
+	if p, ok := t.(*types.Pointer); ok {
+		t = p.Elem()
+	}
+	n, ok := t.(*types.Named)
+	return ok && n.Obj().Pkg() != nil && n.Obj().Pkg().Path() == "sync" && n.Obj().Name() == "Map"
+}
+
 func (r *rewriter) isWatchedMap(e ast.Expr) bool {
 	sel, ok := e.(*ast.SelectorExpr)
 	if !ok || !r.maps[sel.Sel.Name] {
@@ -145,6 +160,9 @@ func (r *rewriter) scan(n ast.Node, f *found) {
 			}
 		case *ast.CallExpr:
 			if m, ok := v.Fun.(*ast.SelectorExpr); ok {
+				if fld, ok := m.X.(*ast.SelectorExpr); ok && r.syncObjs[fld.Sel.Name] && r.isSyncMap(m.X) {
+					f.chanOp = true
+				}
 				if fld, ok := m.X.(*ast.SelectorExpr); ok && r.objs[fld.Sel.Name] {
 					f.objExprs = append(f.objExprs, m.X)
 					if m.Sel.Name != "Avail" && m.Sel.Name != "Len" {
@@ -357,6 +375,10 @@ func main() {
 				if lo == filepath.Base(fn) {
 					r.locksOnly = true
 				}
+			}
+			r.syncObjs = map[string]bool{}
+			for _, m := range t.SyncObjs {
+				r.syncObjs[m] = true
 			}
 			r.objs = map[string]bool{}
 			for _, m := range t.Objs {
